@@ -104,6 +104,14 @@ def gen_cases(rng, tier: str) -> list[dict]:
     cases = []
     for origin, e in combos(rng, tier) + families(tier):
         cases.append({"origin": origin, "e": wire.expr(gen.floatify(e))})
+    for origin, e in gen.rich_shapes(rng, common.sizes(tier, 150, 1500)):
+        cases.append({"origin": origin, "e": wire.expr(gen.floatify(e))})
+    # reducers the model does not know (a rule was added or renamed): aim the generator at their class
+    focus = sorted({m.split("unknown reducer ")[1].split(".")[0] for m in instrument.missing_rules() if "unknown reducer " in m})
+    focus = [k for k in focus if k in gen.ALL]
+    if focus:
+        for origin, e in gen.rich_shapes(rng, 2500, classes=focus):
+            cases.append({"origin": "focus:" + origin, "e": wire.expr(gen.floatify(e))})
     # symbolic derivatives of such trees
     g = gen.Gen(rng, names=("x", "y"), floats_only=True)
     for origin, e in common.expr_stream(rng, tier, common.sizes(tier, 120, 1500), depth_q=4, depth_t=5, names=("x", "y")):
@@ -187,6 +195,24 @@ def check_cases(cases: list[dict], rep: Report, known: dict) -> None:
             w = call(lambda: rule_free(cur))
             if w[0] == "ok" and w[1]:
                 rep.violation(f"the form flagged fully reduced is not rule-free: {w[1]}", info)
+            else:
+                # the same question without trusting any flag: a freshly built copy of the final form
+                # (no reduction / failed-evaluation memos) must go through the driver without a single
+                # rewrite or constant folding
+                fresh = wire.build_raw(wire.expr(cur))
+                m = wire.size(fresh)
+                with instrument.observing() as log2:
+                    def again():
+                        f = fresh
+                        for _ in range(4 * m * m + 8):
+                            if f._is_fully_reduced:
+                                return
+                            f = f._take_reduction_step()
+                    r2 = call(again, timeout=60)
+                if r2[0] == "ok" and log2.events:
+                    rep.violation(f"the final form is not rule-free: on a fresh copy of it {log2.events[0]} still applies "
+                                  f"({wire.size(cur)} nodes: {repr(cur)[:200]})", info)
+                rep.count("final-form-recheck", "rule-free" if not log2.events else "not-rule-free")
         if steps <= 1000:
             it = tb.ask(f"F0 trace 1000 {c['e']}")
             work.append((c, info, evs, it))
